@@ -187,6 +187,70 @@ int main(int argc, char **argv) {
 		mpz_clear(m);
 	}
 
+	// ---- 2b. the residue cache: init for q, then queries with m = q (hits, then fresh), m < q, m > q, exhausted cache --------
+	if (want("cache")) {
+		mpz_t q, m, r, e; mpz_init(q); mpz_init(m); mpz_init(r); mpz_init(e);
+		unsigned reps = T ? 400 : 80;
+		for (unsigned k = 0; k < reps; k++) {
+			unsigned bits = 2 + gen().below(k % 4 == 0 ? 200 : 40);
+			gen_bits(q, bits); mpz_setbit(q, bits - 1);
+			size_t ns[] = { 1, 2, 3, 5, 8, TMCG_MAX_SSRANDOMM_CACHE, 0, TMCG_MAX_SSRANDOMM_CACHE + 1 };
+			size_t n = ns[k % 8]; if (k % 8 == 5 && k % 16 != 5) n = 4;
+			// the query moduli
+			std::vector<std::string> ms; std::vector<int> kinds;
+			size_t nq = 2 + gen().below(8) + (n <= 8 ? n : 3);
+			static mpz_t qs[64]; static bool qinit = false; if (!qinit) { for (auto &x : qs) mpz_init(x); qinit = true; }
+			nq = std::min(nq, (size_t)64);
+			for (size_t j = 0; j < nq; j++) {
+				switch (gen().below(8)) {
+				case 0: mpz_sub_ui(qs[j], q, 1); break;                                  // just below
+				case 1: mpz_add_ui(qs[j], q, 1); break;                                  // just above
+				case 2: mpz_set_ui(qs[j], 2 + gen().below(3)); break;                     // far below
+				case 3: mpz_mul_ui(qs[j], q, 2 + gen().below(1000)); mpz_add_ui(qs[j], qs[j], gen().below(7)); break;   // far above
+				case 4: mpz_fdiv_q_ui(qs[j], q, 2); mpz_add_ui(qs[j], qs[j], 1); break;    // about half
+				default: mpz_set(qs[j], q); break;                                       // the cache modulus
+				}
+				if (mpz_cmp_ui(qs[j], 1) < 0) mpz_set_ui(qs[j], 1);
+			}
+			mpz_t cache[TMCG_MAX_SSRANDOMM_CACHE]; mpz_t cmod; size_t avail = 0;
+			std::string coins, vals, mtok; bool threw = false;
+			coin_script().clear(); coin_log().clear(); coin_logging() = true;
+			try { tmcg_mpz_ssrandomm_cache_init(cache, cmod, avail, n, q); } catch (std::invalid_argument &) { threw = true; }
+			coins = take_log();
+			if (threw) {
+				coin_logging() = false;
+				Rec("rcache").d((long)n).z(q).t("_").b(coins).t("throw");
+				if (n >= 1 && n <= TMCG_MAX_SSRANDOMM_CACHE) propfail("cache-throw", "tmcg_mpz_ssrandomm_cache_init threw for n=" + std::to_string(n));
+				continue;
+			}
+			if (n == 0 || n > TMCG_MAX_SSRANDOMM_CACHE) propfail("cache-throw", "tmcg_mpz_ssrandomm_cache_init accepted n=" + std::to_string(n));
+			if (avail != n) propfail("cache-avail", "cache of " + std::to_string(n) + " entries reports " + std::to_string(avail) + " available");
+			size_t hits = 0;
+			for (size_t j = 0; j < nq; j++) {
+				size_t before = avail;
+				tmcg_mpz_ssrandomm_cache(cache, cmod, avail, r, qs[j]);
+				std::string used = take_log(); coins += used;
+				if (j) { vals += ","; mtok += ","; } vals += hx(r); mtok += hx(qs[j]);
+				std::string ctx = "tmcg_mpz_ssrandomm_cache(cache for q=" + hx(q) + " with " + std::to_string(before) + " entries left, m=" + hx(qs[j]) + ")";
+				if (mpz_sgn(r) < 0 || mpz_cmp(r, qs[j]) >= 0) propfail("cache-range", ctx + " returned " + hx(r) + ", outside [0, m)");
+				bool hit = (mpz_cmp(qs[j], q) == 0 && before > 0);
+				if (hit) { hits++; if (avail != before - 1 || !used.empty()) propfail("cache-hit", ctx + ": a cache hit must consume exactly one entry and no random bytes"); }
+				else {
+					if (avail != before) propfail("cache-hit", ctx + ": a miss consumed a cache entry");
+					size_t need = (mpz_sizeinbase(qs[j], 2) + 64 + 7) / 8;
+					if (used.size() < need) propfail("cache-bytes", ctx + " drew " + std::to_string(used.size()) + " random bytes, fewer than bitlen(m)+64 bits");
+					mpz_import(e, used.size(), 1, 1, 1, 0, used.data()); mpz_mod(e, e, qs[j]);
+					if (mpz_cmp(e, r)) propfail("cache-value", ctx + " is not the value of the drawn bytes modulo m (a residue for a different modulus?)");
+				}
+			}
+			coin_logging() = false;
+			tmcg_mpz_ssrandomm_cache_done(cache, cmod, avail);
+			if (avail != 0) propfail("cache-avail", "cache_done leaves " + std::to_string(avail) + " entries");
+			Rec("rcache").d((long)n).z(q).t(mtok).b(coins).t("ret:" + vals);
+		}
+		mpz_clear(q); mpz_clear(m); mpz_clear(r); mpz_clear(e);
+	}
+
 	// ---- 3. exact distribution of the shuffle generators ------------------------------------------------------------
 	if (want("fy")) {
 		Group G(64, 20, 3);
